@@ -2,24 +2,28 @@
 # runs every registered quick check against every seeded change (applied to /repo, undone afterwards)
 # and records which checks report a violation:  seeded/<id>/detected.json  and  seeded/MATRIX.txt
 cd /verif
-: > seeded/MATRIX.txt
+: > seeded/MATRIX.new
 for d in seeded/*/; do
   id=$(basename $d)
   [ -f $d/patch.diff ] || continue
-  (cd /repo && git apply /verif/$d/patch.diff) || { echo "$id: patch does not apply" >> seeded/MATRIX.txt; continue; }
+  (cd /repo && git apply /verif/$d/patch.diff) || { echo "$id: patch does not apply" >> seeded/MATRIX.new; continue; }
+  rm -rf /tmp/matrix_out; mkdir -p /tmp/matrix_out
+  ./check C01 --tier quick > /tmp/matrix_out/C01 2>&1     # prepares the shared run
+  seq -w 2 20 | xargs -P 6 -I{} sh -c './check C{} --tier quick > /tmp/matrix_out/C{} 2>&1'
   hits=""
   for i in $(seq -w 1 20); do
-    out=$(./check C$i --tier quick 2>&1)
-    if echo "$out" | grep -q "^VIOLATION"; then
-      if echo "$out" | grep "^VIOLATION" | grep -q "no-failing-input-found"; then hits="$hits C$i(nfi)"; else hits="$hits C$i"; fi
+    if grep -q "^VIOLATION" /tmp/matrix_out/C$i; then
+      if grep "^VIOLATION" /tmp/matrix_out/C$i | grep -q "no-failing-input-found"; then hits="$hits C$i(nfi)"; else hits="$hits C$i"; fi
     fi
   done
   (cd /repo && git checkout -- .)
-  echo "$id:$hits" >> seeded/MATRIX.txt
+  echo "$id:$hits" >> seeded/MATRIX.new
   python3 - "$d" "$hits" <<'PY'
 import json,sys
 d,h=sys.argv[1],sys.argv[2].split()
 json.dump({"violations_reported_by":h,"note":"(nfi) = reported with no-failing-input-found (correspondence or proof gate broken, oracle silent)"},open(d+"/detected.json","w"),indent=1)
 PY
 done
+mv seeded/MATRIX.new seeded/MATRIX.txt
+rm -rf /tmp/matrix_out
 cat seeded/MATRIX.txt
